@@ -108,7 +108,7 @@ def gen_affine(rnd, stratum=None):
                                  "q": q, "s": s, "w": w})
             continue
         want_part = stratum in ("S2", "S3", "S4") and di == part_dim
-        if want_part or (stratum in ("S2",) and rnd.random() < 0.3):
+        if want_part or (stratum in ("S2",) and rnd.random() < 0.5):
             if stratum == "S2":
                 nlev = 1
             elif stratum == "S3":
@@ -139,6 +139,8 @@ def gen_affine(rnd, stratum=None):
             groups.extend([[r] for r in lr])
         info["dims"].append({"a": a, "b": b, "kind": kind, "nlev": nlev, "halo": halo,
                              "q": q, "s": s, "w": w})
+    if sum(1 for d in info["dims"] if d["nlev"]) >= 2:
+        info["tags"].append("both-dims-partitioned")
     decl = {"I": [p[2] for p in pairs], "O": [p[0] for p in pairs]}
     i_acc_idx = list(i_idx)
     o_acc_idx = list(out_idx)
